@@ -20,7 +20,7 @@ def one_variant(p):
             return name, {"error": ["does not apply"]}
 
         def chk(pid):
-            return pid, subprocess.run(["/verif/check", pid, "quick"], capture_output=True, text=True, cwd="/verif",
+            return pid, subprocess.run([os.path.join(os.path.dirname(os.path.dirname(os.path.abspath(__file__))), "check"), pid, "quick"], capture_output=True, text=True, cwd=os.path.dirname(os.path.dirname(os.path.abspath(__file__))),
                                        env=dict(os.environ, PCV_REPO=tmp, PCV_EVIDENCE_DIR=os.path.join(tmp, ".ev")))
         first = [chk(ALL[0])]
         with cf.ThreadPoolExecutor(6) as ex:
